@@ -175,6 +175,7 @@ def rule_lost_product(ctx):
     dd = ctx.prog.func("trellis.Trellis.delete_detached")
     src = _norm(ast.unparse(dd.node))
     ctx.check("self.node_from_row(creator_i, kind, label).after_lost_product()" in src and "creator_is.add(creator_i)" in src, dd.fq, "surviving creators of deleted nodes are notified", "deleting a product does not invalidate its surviving creator", "notified after the loop")
+    shared.check_lost_product_chain(ctx, "only the immediate creator is invalidated: a plan further up the detached chain keeps its hash, is recycled and skipped, and what it used to declare never comes back")
     alp = ctx.prog.func("step.Step.after_lost_product")
     reach = ctx.cg.reachable(alp.fq, include_by_name=False)
     ctx.check("step.Step.delete_hash" in reach, alp.fq, "reaches delete_hash", "a step that lost a product keeps its hash and is skipped later", "delete_hash")
@@ -306,6 +307,7 @@ RULES = [
 ]
 
 MUTANTS = [
+    Mutant("lost-product-one-level", "step.py", in_function("Step.after_lost_product", replace_once("creator.after_lost_product()", "creator.delete_hash()")), ("R-C01-5",)),
     Mutant("consumers-attached-only", "workflow.py", in_function("Workflow.mark_consuming_steps_pending", replace_once("file.sinks(Step, include_detached=True)", "file.sinks(Step)")), ("R-C01-1",)),
     Mutant("outputs-attached-only", "workflow.py", in_function("Workflow.mark_step_pending", replace_once("step.sinks(File, include_detached=True)", "step.sinks(File)")), ("R-C01-1",)),
     Mutant("env-attached-only", "startup.py", replace_once('sql = "SELECT node, label, name, value FROM env_var JOIN node ON env_var.node = node.i"', 'sql = "SELECT node, label, name, value FROM env_var JOIN node ON env_var.node = node.i WHERE NOT node.detached"'), ("R-C01-1",)),
